@@ -4,6 +4,7 @@ import (
 	"encoding/json"
 	"fmt"
 	"net/http"
+	"net/http/httptest"
 	"os"
 	"runtime"
 	"sort"
@@ -71,6 +72,16 @@ type worldCfg struct {
 	referenceThrottle int
 	resetThrottle     int
 	metrics           bool
+	flat              bool // apiEncoding jsonflat
+}
+
+type httpReq struct {
+	name   string
+	rec    *httptest.ResponseRecorder
+	done   chan struct{}
+	conn   string // name of the temporary connection
+	seen   bool
+	direct bool // a meta status decided the answer
 }
 
 type stepRec struct {
@@ -104,6 +115,7 @@ type world struct {
 	framesRecvd   func() int64
 	stall         string
 	taint         string // a known defect has manifested earlier in this history
+	https         []*httpReq
 	mon           *monitors
 	wantSnap      bool
 }
@@ -112,6 +124,9 @@ func newWorld(cfg worldCfg, u *universe) (*world, error) {
 	w := &world{cfg: cfg, lg: &memLogger{}, cidName: map[string]string{}}
 	w.mq = newMockMQ()
 	sc := server.Config{NoHTTP: true, ReferenceThrottle: cfg.referenceThrottle, ResetThrottle: cfg.resetThrottle}
+	if cfg.flat {
+		sc.APIEncoding = "jsonflat"
+	}
 	if cfg.metrics {
 		sc.MetricsPort = 8090
 	}
@@ -298,6 +313,36 @@ func (w *world) apply(stim string, f func()) {
 			w.mon.onSub(l.subject, false)
 		}
 	}
+	// completed HTTP requests
+	for _, h := range w.https {
+		if h.seen {
+			continue
+		}
+		select {
+		case <-h.done:
+		default:
+			// still being served: its temporary connection is alive; once that is gone the
+			// handler goroutine only has to return
+			alive := false
+			for _, cs := range w.serv.VerifSnapshot() {
+				if w.cname(cs.CID) == h.conn {
+					alive = true
+				}
+			}
+			if alive {
+				continue
+			}
+			select {
+			case <-h.done:
+			case <-time.After(2 * time.Second):
+				w.addViolation("C15", "http-stall", "HTTP request "+h.name+" not completed although its connection is disposed")
+				continue
+			}
+		}
+		h.seen = true
+		rec.Obs = append(rec.Obs, "H "+h.name+" "+absHTTP(h.rec))
+		w.mon.onHTTP(h)
+	}
 	rec.Obs = canonObs(rec.Obs)
 	if len(rec.Wire) < 2 {
 		rec.Wire = nil
@@ -327,7 +372,7 @@ func (w *world) registerConn(cid string) {
 
 func (w *world) connect() *wsClient {
 	var cl *wsClient
-	name := fmt.Sprintf("c%d", len(w.clients))
+	name := fmt.Sprintf("c%d", len(w.cidName)) // connections are numbered in order of registration (WebSocket and HTTP)
 	w.apply("connect "+name, func() {
 		d := wstest.NewDialer(w.serv.GetWSHandlerFunc())
 		ws, _, err := d.Dial("ws://example.org/", http.Header{})
@@ -726,4 +771,130 @@ func canonObs(obs []string) []string {
 	}
 	sort.Strings(rest)
 	return append(frames, rest...)
+}
+
+// httpGet issues GET <path> against the API (temporary connection inside the gateway).
+func (w *world) httpGet(path, rawQuery string) {
+	name := fmt.Sprintf("h%d", len(w.https))
+	rid := server.PathToRID(path, rawQuery, "/api/")
+	stim := "http " + name + " GET " + rid
+	if !specValidRID(rid, true) || (len(path) > len("/api/") && path[len(path)-1] == '/') {
+		stim = "http " + name + " GET404"
+	}
+	h := &httpReq{name: name, rec: httptest.NewRecorder(), done: make(chan struct{}), conn: fmt.Sprintf("c%d", len(w.cidName))}
+	w.https = append(w.https, h)
+	w.apply(stim, func() {
+		url := "http://example.org" + path
+		if rawQuery != "" {
+			url += "?" + rawQuery
+		}
+		req := httptest.NewRequest("GET", url, nil)
+		go func() {
+			w.serv.ServeHTTP(h.rec, req)
+			close(h.done)
+		}()
+		// wait until the request has either completed or registered its temporary connection
+		deadline := time.Now().Add(2 * time.Second)
+		n := len(w.cidName)
+		for time.Now().Before(deadline) {
+			select {
+			case <-h.done:
+				return
+			default:
+			}
+			cnt := 0
+			for _, s := range w.mq.subjects() {
+				if strings.HasPrefix(s, "conn.") {
+					cnt++
+				}
+			}
+			_ = n
+			if w.mq.logLen() > 0 {
+				return
+			}
+			time.Sleep(20 * time.Microsecond)
+		}
+	})
+}
+
+// absHTTP renders an HTTP answer: status and canonical body (errors by code only).
+func absHTTP(rec *httptest.ResponseRecorder) string {
+	body := strings.TrimSpace(rec.Body.String())
+	if body == "" {
+		return fmt.Sprintf("status=%d body=-", rec.Code)
+	}
+	var v interface{}
+	d := json.NewDecoder(strings.NewReader(body))
+	d.UseNumber()
+	if d.Decode(&v) != nil {
+		return fmt.Sprintf("status=%d body=unparsable:%s", rec.Code, hx(body))
+	}
+	if m, ok := v.(map[string]interface{}); ok {
+		if c, ok := m["code"].(string); ok && isErrObj(m) {
+			return fmt.Sprintf("status=%d body=err:%s", rec.Code, c)
+		}
+	}
+	b, _ := json.Marshal(canonErr(v))
+	return fmt.Sprintf("status=%d body=%s", rec.Code, b)
+}
+
+func isErrObj(m map[string]interface{}) bool {
+	if _, ok := m["code"]; !ok {
+		return false
+	}
+	for k := range m {
+		if k != "code" && k != "message" && k != "data" {
+			return false
+		}
+	}
+	return true
+}
+
+// canonErr reduces embedded error objects to their code.
+func canonErr(v interface{}) interface{} {
+	switch t := v.(type) {
+	case map[string]interface{}:
+		if isErrObj(t) {
+			return map[string]interface{}{"code": t["code"]}
+		}
+		for k, x := range t {
+			t[k] = canonErr(x)
+		}
+		return t
+	case []interface{}:
+		for i, x := range t {
+			t[i] = canonErr(x)
+		}
+		return t
+	}
+	return v
+}
+
+// canonModelLine canonicalises the JSON body of H lines produced by the model.
+func canonModelLine(line string) string {
+	parts := strings.Split(line, " ;; ")
+	for i, p := range parts {
+		idx := strings.Index(p, " body=")
+		if !strings.HasPrefix(p, "H ") || idx < 0 {
+			continue
+		}
+		rest := p[idx+6:]
+		end := strings.Index(rest, " ## ")
+		tail := ""
+		if end >= 0 {
+			tail = rest[end:]
+			rest = rest[:end]
+		}
+		if rest == "-" || strings.HasPrefix(rest, "err:") {
+			continue
+		}
+		var v interface{}
+		d := json.NewDecoder(strings.NewReader(rest))
+		d.UseNumber()
+		if d.Decode(&v) == nil {
+			b, _ := json.Marshal(canonErr(v))
+			parts[i] = p[:idx+6] + string(b) + tail
+		}
+	}
+	return strings.Join(parts, " ;; ")
 }
